@@ -1,4 +1,5 @@
 import TextxVerif.Proofs.ExportModel
+import TextxVerif.Proofs.ExportPuml
 /-!
 # C29 — graph exports are well-formed for any model and metamodel
 
@@ -122,6 +123,89 @@ theorem C29_model_export_valid (h : Heap) (roots : List Root) (hh : HeapOk h) (t
         | step _ ho ht ih =>
           rw [← hproc]
           exact e.closed _ ((hids _).mp ih) _ ho _ ht
+
+/-! ## `metamodel_export_tofile` -/
+
+/-- **Metamodel, DOT renderer.** For every list of unified classes whose class and
+attribute names are safe fragments without angle brackets (match-rule bodies are
+arbitrary strings): if the export produces a text, it is valid DOT, the recogniser
+reports exactly the statements written, all of them have safe strings, and every class
+that is not a match rule (and not a base type) has its node `{name|attrs}` /
+`{*name|}`. -/
+theorem C29_metamodel_dot_valid (all : List MCls) (base : List Str) (hall : ∀ c ∈ all, ClsOk c) (text : Str)
+    (he : mmDot all base = some text) :
+    ∃ ss, mmDotStmts all base = some ss ∧ text = renderDoc ss ∧
+      recognise text = some (headerEvs ++ ss.flatMap stmtEvs) ∧
+      (∀ s ∈ ss, StmtOk s) ∧
+      ∀ c ∈ all, c.fqn ∉ base ++ [cl!"OBJECT"] → c.name ∉ base ++ [cl!"OBJECT"] → c.typ ≠ .match →
+        Stmt.node true c.id (if c.typ = .abstract then '*' :: c.name else c.name) (dotClassAttrs c) ∈ ss ∧
+          recOk (recordLabel (if c.typ = .abstract then '*' :: c.name else c.name) (dotClassAttrs c)) = true := by
+  unfold mmDot at he
+  cases hs : mmDotStmts all base with
+  | none => simp [hs] at he
+  | some ss =>
+    simp only [hs, Option.map_some, Option.some.injEq] at he
+    unfold mmDotStmts at hs
+    cases hi : mmItems all (base ++ [cl!"OBJECT"]) with
+    | none => simp [hi] at hs
+    | some items =>
+      simp only [hi, Option.some.injEq] at hs
+      obtain ⟨hin, hcls⟩ := mmItems_in all _ items hi
+      have hrules := rules_mem all base items hin
+      have hok : ∀ s ∈ ss, StmtOk s := by
+        intro s hs'
+        rw [← hs] at hs'
+        rcases List.mem_append.mp hs' with h1 | h1
+        · obtain ⟨it, hit, hsi⟩ := List.mem_flatMap.mp h1
+          exact dotItem_ok all hall it (hin it hit) s hsi
+        · split at h1
+          · simp at h1
+          · simp only [List.mem_singleton] at h1
+            subst h1
+            intro r hr
+            obtain ⟨c, hc, rfl⟩ := List.mem_map.mp hr
+            exact (hall c (hrules c hc)).2.1
+      refine ⟨ss, rfl, he.symm, ?_, hok, ?_⟩
+      · rw [← he]; exact recognise_renderDoc ss hok
+      · intro c hc h1 h2 hm
+        have hmem : Stmt.node true c.id (if c.typ = .abstract then '*' :: c.name else c.name) (dotClassAttrs c) ∈ ss := by
+          rw [← hs]
+          apply List.mem_append_left
+          apply List.mem_flatMap.mpr
+          exact ⟨.cls c, hcls c hc h1 h2, by simp [dotItem, hm]⟩
+        obtain ⟨hn, ha⟩ := hok _ hmem
+        exact ⟨hmem, recOk_recordLabel hn ha⟩
+
+/-- **Metamodel, PlantUML renderer.** For every list of unified classes whose names fit on
+a line (no newline, blank or brace; no class is called `class`) and every `linetype`
+without newline or brace: if the export produces a text, the line recogniser accepts it —
+`@startuml … @enduml`, every `class … {` closed by its `}`, `legend … end legend` — and
+the declared classes are exactly the non-match classes handed to the renderer, among them
+every common and abstract class of the metamodel that is not a base type. -/
+theorem C29_plantuml_balanced (all : List MCls) (base : List Str) (lt : Option Str) (hall : ∀ c ∈ all, PClsOk c)
+    (hlt : LinetypeOk lt) (text : Str) (he : mmPuml all base lt = some text) :
+    ∃ items, mmItems all (base ++ [cl!"OBJECT"]) = some items ∧
+      pumlRecognise text = some (items.flatMap declared) ∧
+      ∀ c ∈ all, c.fqn ∉ base ++ [cl!"OBJECT"] → c.name ∉ base ++ [cl!"OBJECT"] → c.typ ≠ .match →
+        c.fqn ∈ items.flatMap declared := by
+  unfold mmPuml at he
+  cases hs : mmPumlLines all base lt with
+  | none => simp [hs] at he
+  | some ls =>
+    simp only [hs, Option.map_some, Option.some.injEq] at he
+    unfold mmPumlLines at hs
+    cases hi : mmItems all (base ++ [cl!"OBJECT"]) with
+    | none => simp [hi] at hs
+    | some items =>
+      simp only [hi, Option.some.injEq] at hs
+      obtain ⟨hin, hcls⟩ := mmItems_in all _ items hi
+      have hrules := rules_mem all base items hin
+      refine ⟨items, rfl, ?_, ?_⟩
+      · rw [← he, ← hs]
+        exact pumlRecognise_lines all hall lt hlt items hin _ hrules
+      · intro c hc h1 h2 hm
+        apply List.mem_flatMap.mpr
+        exact ⟨.cls c, hcls c hc h1 h2, by simp [declared, hm]⟩
 
 /-- The pinned behaviour (no escaping of `name`) violates the property: an object named
 `a"b` yields a text the recogniser rejects, and an object named `a{b` yields a label that
